@@ -66,6 +66,7 @@ class Scheduler:
         self.step_budget = 2_000_000
         self.wall_limit = 30.0
         self.hung = None
+        self.qgets = 0             # successful Queue.get calls (progress measures)
         self.obs = []              # harness-level observation log (appended by wrappers)
         self.seq = 0
 
@@ -389,6 +390,7 @@ class Queue:
             ok = s.block_until(lambda: bool(self.queue), timeout, "queue.get")
             if not ok:
                 raise _real_queue.Empty
+        s.qgets += 1
         return self.queue.popleft()
 
     def get_nowait(self):
